@@ -281,7 +281,7 @@ pub fn cases(prop: &str, tier: Tier, seed: u64) -> Vec<CaseDesc> {
             // outputs of edited modules are walrus's own output as well: fixpoint after adding named imports
             out.extend(with_scenario(g("names", 400, 15_000), "rt:addimp"));
             out.extend(with_scenario(g("full", 300, 10_000), "rt:addimp"));
-            for (p, nq, nt) in [("full", 1500, 80_000), ("customs", 800, 30_000), ("names", 800, 30_000), ("gcgraph", 500, 20_000)] {
+            for (p, nq, nt) in [("full", 1500, 80_000), ("customs", 800, 30_000), ("names", 800, 30_000), ("gcgraph", 500, 20_000), ("oddknown", 500, 20_000)] {
                 let specs = g(p, nq, nt);
                 for (i, s) in specs.into_iter().enumerate() {
                     out.push(CaseDesc { spec: s, scenario: format!("rt:emit,emit2,fix,shift,reedit;shift={}", 1 + (i % 7)) });
